@@ -72,6 +72,10 @@ impl Scope {
     }
     pub(crate) fn add_node(&self, node: NodeRef) {
         assert!(node.created_in().equals(self));
+        #[cfg(cormacrelf_incremental_rs_verif)]
+        if let Some(state) = node.state_opt() {
+            state.verif_register(&node);
+        }
         match self {
             Self::Top => {}
             Self::Bind(bind_weak) => {
